@@ -21,7 +21,7 @@ type setCase struct {
 var c01Ops = []string{"|", "&", "&~", "~~", "with", "without", "<:", "!<:", "(<)", "(<=)", "(>)", "(>=)", "(<>)", "(<>=)",
 	"count", "where", "=>", "^", "|", "&", "&~", "~~", "with", "without", "where", "=>"}
 
-var c01Cfg = gcfg{oddSugar: false, superimposed: true, quotedNames: true}
+var c01Cfg = gcfg{oddSugar: true, superimposed: true, quotedNames: true}
 
 // related draws a set that overlaps with a: some of its members, some near misses.
 func (g gcfg) related(t *rapid.T, a *model.V) *model.V {
